@@ -234,7 +234,15 @@ class Connection(object):
         return next(self._seqcounter)
 
     def _send(self, msg, seq, args):  # IO
-        data = brine.dump((msg, seq, args))
+        try:
+            data = brine.dump((msg, seq, args))
+        except Exception:
+            # the message never leaves, so the peer will never release the references `_box` counted for it
+            if msg == consts.MSG_REQUEST:
+                self._unregister_boxed(args[1])
+            elif msg == consts.MSG_REPLY:
+                self._unregister_boxed(args)
+            raise
         # GC might run while sending data
         # if so, a BaseNetref.__del__ might be called
         # BaseNetref.__del__ must call asyncreq,
@@ -277,6 +285,15 @@ class Connection(object):
             id_pack = get_id_pack(obj)
             self._local_objects.add(id_pack, obj)
             return consts.LABEL_REMOTE_REF, id_pack
+
+    def _unregister_boxed(self, package):  # boxing
+        """take back the reference counts `_box` added for a package that could not be sent"""
+        label, value = package
+        if label == consts.LABEL_TUPLE:
+            for item in value:
+                self._unregister_boxed(item)
+        elif label == consts.LABEL_REMOTE_REF:
+            self._local_objects.decref(value)
 
     def _unbox(self, package):  # boxing
         """recreate a local object representation of the remote object: if the
